@@ -424,6 +424,16 @@ def Value.doExecName (cx : VCtx) (v : Value) (name : String) : Option (TM Value)
   else if name == "tagged_hash" then some (doTaggedHash cx v)
   else if name == "taproot_tweak_pubkey" then some (doTaprootTweakPubkey v)
   else if name == "prefix_compact_size" then some (doPrefixCompactSize v)
+  else if name == "bech32menc" then some (doBech32Enc .BECH32M v)
+  else if name == "verify_sig_compact" then some (verifySig true v)
+  else if name == "len" then some (doLen v)
+  -- the names under which `tf -h` lists the inline operators (value.h:649)
+  else if name == "b32e" then some (doBech32Enc .BECH32 v)
+  else if name == "b32me" then some (doBech32Enc .BECH32M v)
+  else if name == "b32d" then some (doBech32Dec v)
+  else if name == "b58ce" then some (doBase58ChkEnc cx v)
+  else if name == "b58cd" then some (doBase58ChkDec cx v)
+  else if name == "jacobi_sym" then some (doJacobiSymbol v)
   else none
 
 /-- `do_exec` on the function name as it stands in the expression text -/
@@ -536,7 +546,7 @@ structure TfEntry where
   name : String
   inl : String
   help : String
-  /-- the name `do_exec` knows this transform by, if any -/
+  /-- the `DO(...)` name `do_exec` knows this transform by (every row has one; `inl` is accepted as well) -/
   exec : Option String
   run : VCtx → Value → TM Unit
 
@@ -548,7 +558,7 @@ def tfTable : List TfEntry := [
   ⟨"add", "add", "[value1] [value2] add two values together", some "add", fun _ => wrap doAdd⟩,
   ⟨"bech32-decode", "b32d", "[string]  decode [string] into a pubkey using bech32 encoding", some "bech32dec", fun _ => wrap doBech32Dec⟩,
   ⟨"bech32-encode", "b32e", "[pubkey]  encode [pubkey] using bech32 encoding", some "bech32enc", fun _ => wrap (doBech32Enc .BECH32)⟩,
-  ⟨"bech32m-encode", "b32me", "[pubkey]  encode [pubkey] using bech32m encoding", none, fun _ => wrap (doBech32Enc .BECH32M)⟩,
+  ⟨"bech32m-encode", "b32me", "[pubkey]  encode [pubkey] using bech32m encoding", some "bech32menc", fun _ => wrap (doBech32Enc .BECH32M)⟩,
   ⟨"base58chk-decode", "b58cd", "[string]  decode [string] into a pubkey using base58 encoding (with checksum)", some "base58chkdec", fun cx => wrap (doBase58ChkDec cx)⟩,
   ⟨"base58chk-encode", "b58ce", "[pubkey]  encode [pubkey] using base58 encoding (with checksum)", some "base58chkenc", fun cx => wrap (doBase58ChkEnc cx)⟩,
   ⟨"combine-pubkeys", "combine_pubkeys", "[pubkey1] [pubkey2] combine the two pubkeys into one pubkey", some "combine_pubkeys", fun _ => wrap doCombinePubkeys⟩,
@@ -557,7 +567,7 @@ def tfTable : List TfEntry := [
   ⟨"hash256", "hash256", "[message] perform HASH256 (SHA256(SHA256(message))", some "hash256", fun cx => wrap (doHash256 cx)⟩,
   ⟨"hex", "hex", "[*]       convert into a hex string", some "hex", fun _ v => sayOut (v.hexStr ++ [10])⟩,
   ⟨"int", "int", "[arg]     convert into an integer", some "int", fun _ v => do let i ← intValueM v; sayOut (intDecimal i ++ [10])⟩,
-  ⟨"len", "len", "[*]       show length of expression in bytes", none, fun _ => wrap doLen⟩,
+  ⟨"len", "len", "[*]       show length of expression in bytes", some "len", fun _ => wrap doLen⟩,
   ⟨"jacobi-symbol", "jacobi_sym", "[n] ([k]) calculate the Jacobi symbol for n modulo k, where k defaults to the secp256k1 field size", some "jacobi", fun _ => wrap doJacobiSymbol⟩,
   ⟨"prefix-compact-size", "prefix_compact_size", "[value] prefix [value] with its compact size encoded byte length", some "prefix_compact_size", fun _ => wrap doPrefixCompactSize⟩,
   ⟨"pubkey-to-xpubkey", "pubkey_to_xpubkey", "[pubkey] convert the given pubkey into an x-only pubkey, as those used in taproot/tapscript", some "pubkey_to_xpubkey", fun _ => wrap doPubkeyToXpubkey⟩,
@@ -570,7 +580,7 @@ def tfTable : List TfEntry := [
   ⟨"taproot-tweak-pubkey", "taproot_tweak_pubkey", "[pubkey] [tweak] tweak the pubkey with the tweak", some "taproot_tweak_pubkey", fun _ => wrap doTaprootTweakPubkey⟩,
   ⟨"tweak-pubkey", "tweak_pubkey", "[value] [pubkey] multiply the pubkey with the given 32 byte value", some "tweak_pubkey", fun _ => wrap doTweakPubkey⟩,
   ⟨"verify-sig", "verify_sig", "[sighash] [pubkey] [signature] verify the given signature for the given sighash and pubkey (der)", some "verify_sig", fun _ => wrap (verifySig false)⟩,
-  ⟨"verify-sig-compact", "verify_sig_compact", "[sighash] [pubkey] [signature] verify the given signature for the given sighash and pubkey (compact)", none, fun _ => wrap (verifySig true)⟩ ]
+  ⟨"verify-sig-compact", "verify_sig_compact", "[sighash] [pubkey] [signature] verify the given signature for the given sighash and pubkey (compact)", some "verify_sig_compact", fun _ => wrap (verifySig true)⟩ ]
 
 /-- what `fn_tf` leaves behind: the two streams and its return value; `exit` = the process was ended instead -/
 structure TfResult where
